@@ -17,7 +17,8 @@ def base_diagram():
              'attrs': [A('Id', 'base', 'unique_id'), A('Name', 'base', 'string'), A('Count', 'base', 'MyInt2'),
                        A('Col', 'base', 'Color'), A('Calc', 'derived', 'integer'), A('Handle', 'base', 'inst_ref<Object>'),
                        A('Prev_Id', 'ref')],
-             'ids': [['Id'], ['Name', 'Count']]},
+             # (the third identifier mixes a plain and a derived attribute)
+             'ids': [['Id'], ['Name', 'Count'], ['Name', 'Calc']]},
             {'kl': 'B', 'name': 'Beta', 'comp': 'C1',
              'attrs': [A('Id', 'base', 'unique_id'), A('A_Id', 'ref'), A('Flag', 'base', 'boolean'), A('R', 'base', 'real'),
                        A('Sh', 'base', 'Shade')],
